@@ -7725,3 +7725,51 @@ mod tests {
         compressor.finalize().unwrap();
     }
 }
+
+/// Verification hooks: pass-through wrappers around private kernels, used only by the external
+/// verification harness. Compiled only with `--cfg ekg_ragc_verif`; no effect otherwise.
+#[cfg(ekg_ragc_verif)]
+pub mod verif_hooks {
+    pub fn reverse_complement_sequence(seq: &[u8]) -> Vec<u8> {
+        super::reverse_complement_sequence(seq)
+    }
+
+    pub fn split_segment_at_position(
+        segment_data: &[u8],
+        split_pos: usize,
+        k: usize,
+    ) -> (Vec<u8>, Vec<u8>) {
+        super::split_segment_at_position(segment_data, split_pos, k)
+    }
+
+    /// Returns (0, 0) = no decision, (1, 0) = assign to left, (2, 0) = assign to right, (3, pos) = split at pos.
+    #[allow(clippy::too_many_arguments)]
+    pub fn find_split_by_cost(
+        segment_dir: &[u8],
+        segment_rc: &[u8],
+        left_ref: &[u8],
+        right_ref: &[u8],
+        kmer_front: u64,
+        kmer_back: u64,
+        middle: u64,
+        k: usize,
+        min_match_len: u32,
+    ) -> (u8, usize) {
+        match super::find_split_by_cost(
+            segment_dir,
+            segment_rc,
+            left_ref,
+            right_ref,
+            kmer_front,
+            kmer_back,
+            middle,
+            k,
+            min_match_len,
+        ) {
+            super::SplitDecision::NoDecision => (0, 0),
+            super::SplitDecision::AssignToLeft => (1, 0),
+            super::SplitDecision::AssignToRight => (2, 0),
+            super::SplitDecision::SplitAt(pos) => (3, pos),
+        }
+    }
+}
